@@ -43,10 +43,10 @@ theorem wf_emptyObjectVal : emptyObjectVal.WF nfc = true := by
 theorem wf_capsuleVal (id : Nat) : (capsuleVal id).WF nfc = true := by
   simp [WF, capsuleVal, Payload.wfP, Ty.ok, Ty.wf, Ty.hasOpt, Ty.namesAll]
 
-theorem wf_mark {v : Value} (m : String) (h : v.WF nfc = true) : (v.mark m).WF nfc = true := by
+theorem wf_mark {v : Value} (m : String) (h : v.WF nfc = true) : (v.mark1 m).WF nfc = true := by
   obtain ⟨t, p⟩ := v
   simp only [WF, Bool.and_eq_true] at h
-  unfold mark
+  unfold mark1
   split
   · rename_i ms r hp
     simp only at hp; subst hp
